@@ -127,6 +127,9 @@ func expandAll(l []string) []string {
 
 // unexpand is the inverse, for canonical state keys.
 func unexpand(s string) string {
+	if !strings.Contains(s, "acc/") {
+		return s // account ids only ever appear inside the self-owned namespace
+	}
 	for _, n := range []string{"S", "A", "B", "C", "N"} {
 		s = strings.ReplaceAll(s, acct(n).AccountId, "$"+n)
 	}
@@ -273,7 +276,6 @@ type fstream struct {
 	mu      sync.Mutex
 	out     []*pubsubproto.PubSubMessage
 	id      uint32
-	hook    func(kind string) // optional scheduling hook (race part)
 }
 
 func newFstream(spec streamSpec) *fstream {
